@@ -336,12 +336,11 @@ fn handle_item(
         }
         Item::Each(names, values, body) => {
             check_body(body, BodyContext::Control)?;
-            let pushed = scope.store_local_values(names);
             for value in values.evaluate(scope.clone())?.iter_items() {
+                let scope = ScopeRef::sub_flow(scope.clone());
                 scope.define_multi(names, value)?;
-                handle_body(body, dest, scope.clone(), file_context)?;
+                handle_body(body, dest, scope, file_context)?;
             }
-            scope.restore_local_values(pushed);
         }
         Item::For(name, range, body) => {
             let range = range.evaluate(scope.clone())?;
